@@ -51,6 +51,7 @@ pub fn main(args: &Args) -> i32 {
         data: 2,
         immediate: 0,
         side: 4,
+        reinvite: true,
         ..Weights::default()
     };
     let spec = Spec {
